@@ -199,6 +199,56 @@ fn commit_script(w: &RWorld, rng: &mut Rng, s: &[u8], kind: u64, stack: Vec<Vec<
     }
 }
 
+/// stacks per directed script: 85 position-wise (lengths 0..3 over 4 kinds) + 36 homogeneous
+/// (lengths 4..9 over 6 kinds) through the native output type, + 3 x 42 homogeneous (lengths 0..6)
+/// through the other output types
+pub const SHORT_PER: u64 = 85 + 36 + 3 * 42;
+
+fn wit_kind(w: &RWorld, tap: bool, kind: usize, seq: u32, lt: u32) -> Vec<u8> {
+    let ds = DummySat { w, keys: !0, pre: !0, lt, seq, big: vec![] };
+    match kind {
+        0 => vec![],
+        1 => vec![1],
+        2 => vec![2, 3, 5, 7],
+        3 => {
+            if tap {
+                ds.schnorr().to_vec()
+            } else {
+                ds.ecdsa().to_vec()
+            }
+        }
+        4 => w.w.key_bytes(0, tap),
+        _ => w.w.preimages[0].to_vec(),
+    }
+}
+
+/// (script, witness stack below the script, output kind) number `r` for directed script `si`
+pub fn short_case(w: &RWorld, si: usize, r: usize, seq: u32, lt: u32) -> (Vec<u8>, Vec<Vec<u8>>, u64) {
+    let n0 = w.directed[0].len();
+    let (tap, sc) = if si < n0 { (false, w.directed[0][si].1.clone()) } else { (true, w.directed[1][(si - n0) % w.directed[1].len().max(1)].1.clone()) };
+    let native = if tap { 4u64 } else { 0 };
+    let (kinds, kind): (Vec<usize>, u64) = if r < 85 {
+        // position-wise: lengths 0 (1), 1 (4), 2 (16), 3 (64)
+        let (len, mut code) = if r < 1 { (0, 0) } else if r < 5 { (1, r - 1) } else if r < 21 { (2, r - 5) } else { (3, r - 21) };
+        let mut v = Vec::new();
+        for _ in 0..len {
+            v.push(code % 4);
+            code /= 4;
+        }
+        (v, native)
+    } else if r < 121 {
+        let q = r - 85;
+        (vec![q % 6; 4 + q / 6], native)
+    } else {
+        let q = r - 121;
+        let other = [1u64, 2, 3][q / 42];
+        let q = q % 42;
+        (vec![q % 6; q / 6], if tap { 4 } else { other })
+    };
+    let stack = kinds.into_iter().map(|k| wit_kind(w, tap, k, seq, lt)).collect();
+    (sc, stack, kind)
+}
+
 pub fn g_interp(w: &RWorld, rng: &mut Rng, idx: u64) -> (Input, &'static str) {
     let seq = *pick(rng, &[0u32, 1, 10, 0xffff, 0x400001, 0x80000000, 0xfffffffe, 0xffffffff]);
     let lt = *pick(rng, &[0u32, 1, 100, 499_999_999, 500_000_000, 0xffffffff]);
@@ -238,6 +288,20 @@ pub fn g_interp(w: &RWorld, rng: &mut Rng, idx: u64) -> (Input, &'static str) {
         let stack = if shape == 3 { vec![ds.schnorr().to_vec()] } else { vec![] };
         let (spk, sig, wit, _) = commit_script(w, rng, &sc, kind, stack);
         return (Input::Interp { spk, sig, wit, seq, lt }, label);
+    }
+    // ---- SHORT and ragged witnesses per fragment kind (the dissatisfaction arms are where
+    // `len - k` style underflows hide): every directed script x every stack of length 0..3 over
+    // {empty, 01, junk, signature} in every position, and homogeneous stacks of length 4..9 over
+    // {empty, 01, junk, signature, key, preimage}; then the homogeneous ones again through
+    // p2sh-p2wsh, p2sh and bare
+    let short_base = 12 + n_deep + 24;
+    let n_scripts = (w.directed[0].len() + w.directed[1].len()) as u64;
+    if idx >= short_base && idx < short_base + n_scripts * SHORT_PER {
+        let j = idx - short_base;
+        let (si, r) = ((j / SHORT_PER) as usize, (j % SHORT_PER) as usize);
+        let (sc, stack, kind) = short_case(w, si, r, seq, lt);
+        let (spk, sig, wit, _) = commit_script(w, rng, &sc, kind, stack);
+        return (Input::Interp { spk, sig, wit, seq, lt }, "short-witness");
     }
     if idx < 12 {
         let big: Vec<Vec<u8>> = (0..10_000).map(|_| vec![]).collect();
@@ -367,7 +431,24 @@ pub fn g_interp(w: &RWorld, rng: &mut Rng, idx: u64) -> (Input, &'static str) {
             };
             (Input::Interp { spk, sig, wit, seq, lt }, label)
         }
-        4..=8 => {
+        4 | 5 => {
+            // a VALID generated script of the output type's context with a short / ragged witness:
+            // fewer elements than it needs, each empty / 01 / junk / signature / key / preimage
+            let ctx = *pick(rng, &[1usize, 2, 2, 3, 3]);
+            let s = valid_script(w, rng, ctx);
+            let n = rng.below(6);
+            let homogeneous = rng.chance(1, 2);
+            let k0 = rng.below(6) as usize;
+            let stack: Vec<Vec<u8>> = (0..n).map(|_| wit_kind(w, ctx == 3, if homogeneous { k0 } else { rng.below(6) as usize }, seq, lt)).collect();
+            let kind = match ctx {
+                1 => 2,
+                2 => *pick(rng, &[0u64, 0, 1]),
+                _ => 4,
+            };
+            let (spk, sig, wit, _) = commit_script(w, rng, &s, kind, stack);
+            (Input::Interp { spk, sig, wit, seq, lt }, "short-witness-generated")
+        }
+        6..=8 => {
             // arbitrary script committed in every output type, arbitrary stack
             let ctx = rng.below(4) as usize;
             let s = match gen_script(w, rng, 1000, ctx).0 {
